@@ -373,8 +373,24 @@ impl<'a> G<'a> {
             // ---- unknown attribute
             2 => {
                 let mut it = self.base();
-                let unk = self.pick(&["bogus", "bogus = 1", "renam = \"x\"", "tags = \"t\"", "skipped", "denyunknownfields"]);
                 let lvl = self.below(3);
+                // where the attribute will really sit, given the base shape
+                let actual = match (&it.body, lvl) {
+                    (Body::Struct(fs), 1 | 2) if !fs.is_empty() => 2,
+                    (Body::Enum(_), 1) => 1,
+                    (Body::Enum(vs), 2) if vs.iter().any(|v| matches!(&v.data, VData::Named(fs) if !fs.is_empty())) => 2,
+                    _ => 0,
+                };
+                // unknown names, and attributes that exist at another level only
+                let unk = if self.chance(0.5) {
+                    self.pick(&["bogus", "bogus = 1", "renam = \"x\"", "tags = \"t\"", "skipped", "denyunknownfields"])
+                } else {
+                    match actual {
+                        0 => self.pick(&["needs_predicate", "skip", "default", "map = f_map", "rename = \"x\"", "missing_field_error = f_missing::<__Deserr_E>"]),
+                        1 => self.pick(&["default", "skip", "tag = \"t\"", "deny_unknown_fields", "error = MyErr", "map = f_map"]),
+                        _ => self.pick(&["tag = \"t\"", "rename_all = camelCase", "deny_unknown_fields", "validate = f_validate -> __Deserr_E", "where_predicate = T: Copy"]),
+                    }
+                };
                 let mut level = "container";
                 match (&mut it.body, lvl) {
                     (Body::Struct(fs), 1 | 2) if !fs.is_empty() => {
